@@ -8,7 +8,7 @@
    it yields under the scanner's skip flags and filters, so blocks emptied by skip flags are frames
    with no objects; the theorems hold for arbitrary object lists per block. *)
 From Coq Require Import ZArith List Bool Arith Lia.
-From Verif Require Import Framing.Model Framing.Valid Framing.Proofs C06.Spec C06.Proofs
+From Verif Require Import Framing.Model Framing.Valid Framing.Proofs C06.Spec C06.Proofs C06.Bridge
                           C09.Spec C09.Proofs.
 Import ListNotations.
 Open Scope Z_scope.
@@ -65,6 +65,15 @@ Theorem C09_stop_and_resume_loses_nothing : forall (T : Type) (fs : list (frame 
     firstn k' all ++ objects (scan current rest (total_size fs - off)) = all.
 Proof. exact (@stop_and_resume_loses_nothing). Qed.
 Print Assumptions C09_stop_and_resume_loses_nothing.
+
+(* The theorems above take a block's objects as a function of the block (and the skip flags).  That is
+   justified by layer L1 (theories/Pbf): the outcome of decoding a block's message tree does not depend
+   on the state of the decoder that does it, so the fresh decoder of the second scanner returns what the
+   worker of the first scan returned. *)
+Theorem C09_block_outcome_state_independent : forall c st1 st2 m,
+  decode_tree c st1 m = decode_tree c st2 m.
+Proof. exact decode_tree_state_independent. Qed.
+Print Assumptions C09_block_outcome_state_independent.
 
 (* the complete scan of a valid stream, with the offsets the blocks carry *)
 Theorem C09_scan_valid : forall (T : Type) (fs : list (frame T)),
